@@ -73,6 +73,10 @@ func TestC14Elections(t *testing.T) {
 				rec.Discard("invalid-genesis")
 				return
 			}
+			var ec chain.ErrEngineContract
+			if errors.As(err, &ec) {
+				ev.Violation(t, "validator-updates", "the validator set returned by InitChain for a genesis document that passes its sanity check cannot be applied by the consensus engine: %v; spec=%+v", ec.Err, *spec)
+			}
 			ev.Infra(t, "new sim: %v", err)
 		}
 		cur = sim
